@@ -21,8 +21,8 @@ Open Scope nat_scope.
     invariant behind this proof does not hold (no C09 violation is known there: the oracle
     found none on the generated self-feeding programs). *)
 Theorem C09_no_invocation_without_cause_except_known :
-  forall p, wf_prog p -> ~ self_feeding p ->
-  forall ops, wf_ops p ops -> nocause (run_fixed p ops) = 0.
+  forall p par selw, wf_prog p -> ~ self_feeding p ->
+  forall ops, wf_ops p ops -> nocause (run_fixed p par selw ops) = 0.
 Proof. exact no_causeless_run_except_known. Qed.
 Print Assumptions C09_no_invocation_without_cause_except_known.
 
@@ -52,10 +52,10 @@ Print Assumptions C09_run_consumes_causes.
 
 (** F-C09 on the code before the fix: one set runs the effect twice, the second invocation has
     no cause; repaired code: none *)
-Theorem C09_effect_double_run_prefix_refuted : nocause (run_prefix_c p_twice ops_c) = 1.
+Theorem C09_effect_double_run_prefix_refuted : nocause (run_prefix_c p_twice no_par no_sel ops_c) = 1.
 Proof. exact double_run_prefix_refuted. Qed.
 Print Assumptions C09_effect_double_run_prefix_refuted.
 
-Theorem C09_effect_double_run_fixed : nocause (run_fixed p_twice ops_c) = 0.
+Theorem C09_effect_double_run_fixed : nocause (run_flat p_twice ops_c) = 0.
 Proof. exact double_run_fixed. Qed.
 Print Assumptions C09_effect_double_run_fixed.
